@@ -539,6 +539,35 @@ def d8_optional_keys(ctx, js):
                   'the single-structure unwrapping is reachable with full_output=True (conditions excluded here: %s): obsdata is no longer a list of structures and load_json_dict picks element k of the structure itself' % neg, js.loc(un[0]))
 
 
+def d10_corr_entry_tags(ctx, js, rule='C11-D2'):
+    """a Corr is stored as an Array whose tag list holds the tags of its entries followed by the tag of the Corr: the reader hands
+    taglist[:-1] to the Array reader under the key 'tag' (and drops the key only when that list is empty)"""
+    f = js.func('_parse_json_dict.get_Corr_from_dict') if js.has_func('_parse_json_dict.get_Corr_from_dict') else None
+    key = 'json#corr-entry-tags'
+    if f is None:
+        ctx.unrec(rule, key, 'get_Corr_from_dict not found')
+        return
+    calls = [c for c in walk(f) if isinstance(c, ast.Call) and call_name(c) == 'get_Array_from_dict' and c.args]
+    if len(calls) != 1:
+        ctx.unrec(rule, key, 'call of get_Array_from_dict not found', js.loc(f))
+        return
+    arg = calls[0].args[0]
+    stores = [s_ for s_ in statements(f) if isinstance(s_, ast.Assign) and isinstance(s_.targets[0], ast.Subscript) and unparse(s_.targets[0].slice) == "'tag'"
+              and isinstance(arg, ast.Name) and unparse(s_.targets[0].value) == arg.id]
+    ok = any(unparse(s_.value) == 'taglist[:-1]' for s_ in stores)
+    if not ok and isinstance(arg, ast.Name):
+        # a dictionary built with the key: {..., 'tag': taglist[:-1]} / dict(o, tag=taglist[:-1])
+        for d_ in find_def_local(f, arg.id):
+            txt = unparse(d_.value)
+            if "'tag': taglist[:-1]" in txt or 'tag=taglist[:-1]' in txt:
+                ok = True
+    ctx.check(rule, key, ok, "the entries' tags taglist[:-1] are passed on under 'tag'", "the dictionary handed to the Array reader does not carry taglist[:-1] under 'tag': the tags of the entries of a Corr are lost on reading", js.loc(calls[0]))
+
+
+def find_def_local(f, name):
+    return [s_ for s_ in statements(f) if isinstance(s_, ast.Assign) and len(s_.targets) == 1 and isinstance(s_.targets[0], ast.Name) and s_.targets[0].id == name]
+
+
 def d9_placeholders(ctx, js, rule='C11-D3'):
     """_ol_from_dict / _od_from_list_and_dict are a pure pair on nested dict / list structures: the extracted functions are evaluated
     with stand-in classes for Obs and Corr on a set of nested dictionaries (objects directly in the dict, in nested dicts, in mixed
@@ -636,6 +665,7 @@ def run(ctx):
     ctx.guarded('C11-D3', 'json@siblings', d3_siblings, ctx, js)
     ctx.guarded('C11-D3', 'json@optional-keys', d8_optional_keys, ctx, js)
     ctx.guarded('C11-D3', 'json@placeholders', d9_placeholders, ctx, js)
+    ctx.guarded('C11-D2', 'json@corr-entry-tags', d10_corr_entry_tags, ctx, js)
     ctx.guarded('C11-D4', 'json@offsets', d4_offsets, ctx, js)
     ctx.guarded('C11-D5', 'json@effects', d5_effects, ctx, js)
     ctx.guarded('C11-D6', 'json@transports', d6_transports, ctx, js)
